@@ -307,6 +307,15 @@ def judge(cfg, method, aw, classes, stats=None):
                        "sum of squares" if cfg["cls"] == "Square" else "density", float(w),
                        cfg["y"][i] if method != "loss" else "...", cfg["yhat"][i] if method != "loss" else "...",
                        eff_spread(cfg)[i] if method != "loss" else "...", aw))
+    # the kernels are functions of (y, yhat, spread): evaluating the other methods on the same object in between
+    # must not change the answer (no hidden state, no aliasing of the stored spread / data)
+    for m2 in ("diff2Loss", "diff_loss", "loss"):
+        call(obj, m2, yhat, aw)
+    vals2, shp2, err2 = call(obj, method, yhat, aw)
+    if err2 or tuple(shp2) != tuple(shp) or any((a != b) and not (a != a and b != b) for a, b in zip(vals, vals2)):
+        return ("%s:not-pure" % name,
+                "%s gives a different answer after loss/diff_loss/diff2Loss were evaluated on the same object: first %r, then %r"
+                % (name, list(vals)[:3], (list(vals2)[:3] if not err2 else err2)))
     if stats is not None:
         stats[name] = max(stats.get(name, 0.0), worst)
     return None
